@@ -5,19 +5,29 @@
 // today; these exist so that a changed tree that introduces them is still explored.
 package vsync
 
-import "worldcoin/gnark-mbu/verifrt/vsched"
+import (
+	"sync"
+	"sync/atomic"
+
+	"worldcoin/gnark-mbu/verifrt/vsched"
+)
+
+// Every primitive falls back to the real one when the caller is not a scheduler thread (instrumented
+// code that also runs free, e.g. in the sequential phases of a check): `real` carries that use.
 
 type Mutex struct {
 	locked bool
 	q      []*vsched.Thread
+	real   sync.Mutex
 }
 
 func (m *Mutex) Lock() {
 	t := vsched.Current()
-	vsched.Sync("lock")
 	if t == nil {
+		m.real.Lock()
 		return
 	}
+	vsched.Sync("lock")
 	for m.locked {
 		m.q = append(m.q, t)
 		t.Block("mutex")
@@ -26,6 +36,9 @@ func (m *Mutex) Lock() {
 }
 
 func (m *Mutex) TryLock() bool {
+	if vsched.Current() == nil {
+		return m.real.TryLock()
+	}
 	vsched.Sync("trylock")
 	if m.locked {
 		return false
@@ -35,6 +48,10 @@ func (m *Mutex) TryLock() bool {
 }
 
 func (m *Mutex) Unlock() {
+	if vsched.Current() == nil {
+		m.real.Unlock()
+		return
+	}
 	vsched.Sync("unlock")
 	if !m.locked {
 		panic("sync: unlock of unlocked mutex")
@@ -50,6 +67,7 @@ type RWMutex struct {
 	w       bool
 	readers int
 	q       []*vsched.Thread
+	real    sync.RWMutex
 }
 
 func (m *RWMutex) wake() {
@@ -61,10 +79,11 @@ func (m *RWMutex) wake() {
 
 func (m *RWMutex) Lock() {
 	t := vsched.Current()
-	vsched.Sync("wlock")
 	if t == nil {
+		m.real.Lock()
 		return
 	}
+	vsched.Sync("wlock")
 	for m.w || m.readers > 0 {
 		m.q = append(m.q, t)
 		t.Block("rwmutex write")
@@ -73,6 +92,10 @@ func (m *RWMutex) Lock() {
 }
 
 func (m *RWMutex) Unlock() {
+	if vsched.Current() == nil {
+		m.real.Unlock()
+		return
+	}
 	vsched.Sync("wunlock")
 	m.w = false
 	m.wake()
@@ -80,10 +103,11 @@ func (m *RWMutex) Unlock() {
 
 func (m *RWMutex) RLock() {
 	t := vsched.Current()
-	vsched.Sync("rlock")
 	if t == nil {
+		m.real.RLock()
 		return
 	}
+	vsched.Sync("rlock")
 	for m.w {
 		m.q = append(m.q, t)
 		t.Block("rwmutex read")
@@ -92,17 +116,26 @@ func (m *RWMutex) RLock() {
 }
 
 func (m *RWMutex) RUnlock() {
+	if vsched.Current() == nil {
+		m.real.RUnlock()
+		return
+	}
 	vsched.Sync("runlock")
 	m.readers--
 	m.wake()
 }
 
 type WaitGroup struct {
-	n int
-	q []*vsched.Thread
+	n    int
+	q    []*vsched.Thread
+	real sync.WaitGroup
 }
 
 func (w *WaitGroup) Add(d int) {
+	if vsched.Current() == nil {
+		w.real.Add(d)
+		return
+	}
 	vsched.Sync("wg.add")
 	w.n += d
 	if w.n < 0 {
@@ -120,10 +153,11 @@ func (w *WaitGroup) Done() { w.Add(-1) }
 
 func (w *WaitGroup) Wait() {
 	t := vsched.Current()
-	vsched.Sync("wg.wait")
 	if t == nil {
+		w.real.Wait()
 		return
 	}
+	vsched.Sync("wg.wait")
 	for w.n > 0 {
 		w.q = append(w.q, t)
 		t.Block("waitgroup")
@@ -131,18 +165,18 @@ func (w *WaitGroup) Wait() {
 }
 
 type Once struct {
-	done bool
+	done atomic.Bool
 	m    Mutex
 }
 
 func (o *Once) Do(f func()) {
-	if o.done {
+	if o.done.Load() {
 		return
 	}
 	o.m.Lock()
 	defer o.m.Unlock()
-	if !o.done {
-		defer func() { o.done = true }()
+	if !o.done.Load() {
+		defer o.done.Store(true)
 		f()
 	}
 }
@@ -154,15 +188,19 @@ func (o *Once) Do(f func()) {
 type Pool struct {
 	New  func() any
 	free []any
+	mu   sync.Mutex // guards free (never held across a scheduling point)
 }
 
 func (p *Pool) Get() any {
 	vsched.Sync("pool.get")
+	p.mu.Lock()
 	if n := len(p.free); n > 0 {
 		x := p.free[n-1]
 		p.free = p.free[:n-1]
+		p.mu.Unlock()
 		return x
 	}
+	p.mu.Unlock()
 	if p.New != nil {
 		return p.New()
 	}
@@ -172,6 +210,8 @@ func (p *Pool) Get() any {
 func (p *Pool) Put(x any) {
 	vsched.Sync("pool.put")
 	if x != nil {
+		p.mu.Lock()
 		p.free = append(p.free, x)
+		p.mu.Unlock()
 	}
 }
